@@ -283,11 +283,16 @@ class Engine:
             it.old_env = saved
 
     # ---- value equality for frame conditions
-    def veq(self, it, a, b, memo_old_to_live):
-        """a: old value, b: live value -> list of clauses (bool / SV / Forall)"""
+    def veq(self, it, a, b, memo_old_to_live, shallow=False):
+        """a: old value, b: live value -> list of clauses (bool / SV / Forall); shallow: containers nested in a
+        container are compared by identity (their contents are frame locations of their own)"""
         ops = it.ops
         if a is b:
             return [True]
+        if shallow == 'inner' and isinstance(a, (list, dict, SList)) and isinstance(b, (list, dict, SList)):
+            return [memo_old_to_live.get(id(a)) is b]
+        if shallow:
+            shallow = 'inner'
         if isinstance(a, Vec) and isinstance(b, Vec):
             return [ops.eq(a.n if isinstance(a.n, int) else SV(a.n), b.n if isinstance(b.n, int) else SV(b.n)),
                     Forall(0, a.n if isinstance(a.n, int) else SV(a.n), lambda i: ops.eq(a.at(i.t), b.at(i.t)))]
@@ -300,7 +305,7 @@ class Engine:
                 return [False]
             out = []
             for x, y in zip(a, b):
-                out += self.veq(it, x, y, memo_old_to_live)
+                out += self.veq(it, x, y, memo_old_to_live, shallow)
             return out
         if isinstance(a, dict) and isinstance(b, dict):
             if memo_old_to_live.get(id(a)) is not b:
@@ -309,7 +314,7 @@ class Engine:
                 return [False]
             out = []
             for k in a:
-                out += self.veq(it, a[k], b[k], memo_old_to_live)
+                out += self.veq(it, a[k], b[k], memo_old_to_live, shallow)
             return out
         if isinstance(a, tuple) and isinstance(b, tuple) and len(a) == len(b):
             out = []
@@ -762,7 +767,9 @@ class Engine:
                     o, field, _ = self.resolve_mod_target(it, entry, old_env)
                 finally:
                     it.old_env = saved
-            except (Unsupported, PyExc):
+            except (Unsupported, PyExc) as _e:
+                if os.environ.get('PYVC_DEBUG'):
+                    print('frame target unresolved:', entry, _e)
                 continue
             allowed.add((id(o), field))
         for live, old in pairs:
@@ -792,7 +799,7 @@ class Engine:
             elif isinstance(live, (list, dict)):
                 if (id(old), '[*]') in allowed:
                     continue
-                cls = self.veq(it, old, live, old_to_live)
+                cls = self.veq(it, old, live, old_to_live, shallow=True)
                 for n, g in enumerate(cls):
                     if g is True:
                         continue
@@ -958,7 +965,8 @@ class Engine:
             solver.pop()
         out = {'dims': {nme: mdl.eval(d, model_completion=True).as_long() for nme, d in dims.items()}}
         try:
-            out['inputs'] = {k: self.concretize(v, mdl, {}) for k, v in getattr(path, 'inputs', {}).items()}
+            memo = {}       # one memo for all inputs: objects shared between parameters stay shared in the replay
+            out['inputs'] = {k: self.concretize(v, mdl, memo) for k, v in getattr(path, 'inputs', {}).items()}
         except Exception as e:      # replay is best effort; the verdict does not depend on it
             out['inputs_error'] = f'{type(e).__name__}: {e}'
         return out
@@ -1021,6 +1029,8 @@ def val_json(v):
     if z3.is_algebraic_value(v):
         a = v.approx(12)
         return a.numerator_as_long() / a.denominator_as_long()
+    if v.sort() == StrS:
+        return str(v).replace('!', '_').lower()      # uninterpreted string value -> a lower-case python string
     return str(v)
 
 
